@@ -306,8 +306,17 @@ def rkness(ctx, rng, idx):
         for i in range(s):
             exp = f0.data[q] + dt * sum(A[i, j] * calls[j][2][q] for j in range(i))
             ctx.close("stage-input", np.max(np.abs(calls[i][1][q] - exp)) / scale, 1e-13, "rkness/%s/stage-input" % iname, {"stage": i, "eq": q}, cls=cls)
-        exp = f0.data[q] + dt * sum(b[j] * calls[j][2][q] for j in range(s))
-        ctx.close("result", np.max(np.abs(f.data[q] - exp)) / scale, 1e-13, "rkness/%s/result" % iname, {"eq": q}, cls=cls)
+        with np.errstate(all="ignore"):
+            exp = f0.data[q] + dt * sum(b[j] * calls[j][2][q] for j in range(s))
+            got_ = np.asarray(f.data[q], float)
+            fin = np.isfinite(exp) & np.isfinite(got_)
+            # a blown-up local-time-step run (Burgers cell with u ~ 0: a step thousands of times its neighbours') overflows in the last
+            # combination, in the step and in its recomputation alike: inf - inf is not a difference (thorough-tier witness); the
+            # overflow must be in the same places, the finite entries are compared
+            if not np.all(fin):
+                ctx.true("result", np.array_equal(np.isfinite(exp), np.isfinite(got_)) or not np.isfinite(scale), "rkness/%s/result-finite-where-the-tableau-overflows" % iname, {"eq": q}, cls=cls)
+            err_ = float(np.max(np.abs(got_[fin] - exp[fin]))) / scale if np.any(fin) and np.isfinite(scale) else 0.0
+        ctx.close("result", err_, 1e-13, "rkness/%s/result" % iname, {"eq": q}, cls=cls)
     csum = A.sum(axis=1)
     for i in range(s):
         ctx.close("stage-time", abs((calls[i][0] - f0.time) - csum[i] * dtmin) / dtmin, 1e-9 * max(1.0, abs(f0.time) / dtmin),
